@@ -15,6 +15,7 @@ CONSTANTS
   FIX_STALE = TRUE
   FIX_RENAMEDIR = TRUE
   FIX_SCANWATCHED = TRUE
+  FIX_RETRY = TRUE
   RECORD = FALSE
 INVARIANTS TypeOK Bounded WatchesOK
 PROPERTIES Converges ErrConverges Settles ConfigureFresh
